@@ -967,3 +967,47 @@ def m_setdefault(ex, node, st, rt):
 
 CONTAINER_METHODS["pop"] = m_pop
 CONTAINER_METHODS["setdefault"] = m_setdefault
+
+
+def m_isdisjoint(ex, node, st, rt):
+    """s.isdisjoint(other): no common member (other: a set or the keys of a dict)"""
+    outs = []
+    for s, k, vs in _args(ex, node, st):
+        if k == "exc":
+            outs.append((s, k, vs))
+            continue
+        other = as_val(vs[0])
+        okc = z3.And(z3.Or(isinst(rt, "set"), isinst(rt, "frozenset")), z3.Or(isinst(other, "set"), isinst(other, "frozenset"), isinst(other, "dict")))
+        bad = s.fork().assume(z3.Not(okc))
+        if ex.feasible(bad):
+            outs.append(_exc(ex, bad, "TypeError"))
+        s.assume(okc)
+        h = Heap(ex, s)
+        kk = z3.Const("kk", Val)
+        outs.append((s, "val", sv_bool(z3.Not(z3.Exists([kk], z3.And(h.arr("dhas")[rt][kk], h.arr("dhas")[other][kk]))))))
+    return outs
+
+
+CONTAINER_METHODS["isdisjoint"] = m_isdisjoint
+
+SORTED_OF = z3.Function("sorted_of", T.ArrVB, Val)
+
+
+def b_sorted(ex, node, st):
+    """sorted(a set of strings): a fresh list determined by the members (order not modelled);
+    TypeError for non-comparable members is excluded by the caller's precondition (string keys)"""
+    outs = []
+    for s, k, vs in ex.eval_many(node.args, st):
+        if k == "exc":
+            outs.append((s, k, vs))
+            continue
+        t = as_val(vs[0])
+        h = Heap(ex, s)
+        items = ex.fresh("sorted", T.ArrIV)
+        n = h.dlen(t)
+        o = ex.new_list(s, z3.If(n >= 0, n, 0), items, hint="list")
+        outs.append((s, "val", sv_val(o)))
+    return outs
+
+
+BUILTINS["sorted"] = b_sorted
